@@ -177,7 +177,10 @@ theorem C15_gen : Gen.serveDeferRecover = true âˆ§ Gen.serveDeferClose = true âˆ
     Gen.tlsHandshakeSites = ["conn.serve"] âˆ§
     -- a failed read is reported unless it IS the end of the stream (identity, not `errors.Is`:
     -- a decode error that wraps ErrUnexpectedEOF is still reported)
-    Gen.serveReportCond = "((err!=io.EOF)&&(err!=io.ErrUnexpectedEOF))" := by decide
+    Gen.serveReportCond = "((err!=io.EOF)&&(err!=io.ErrUnexpectedEOF))" âˆ§
+    -- no process-wide channel, mutex or semaphore, and none in `Server`, that a fault on one
+    -- connection could leave taken (`C15_frame`)
+    Gen.sharedBlockingState = [] := by decide
 
 /-- non-vacuity: a handler panic on connection 0 while connection 1 is mid-message; connection 1
     completes and dispatches its message afterwards -/
